@@ -4,7 +4,7 @@ import re
 
 from ..core import AnalysisError, norm
 from ..sim import check_reach
-from .common import (effects, paths_of, check_writers, arg_by_name, named_call_sites)
+from .common import (check_zero_is_a_value, effects, paths_of, check_writers, arg_by_name, named_call_sites)
 
 CTRL = 'frontends.tui.controller.Controller'
 MSGQ = 'core.wl.message.Message'
@@ -43,6 +43,9 @@ def run(ctx):
             ctx.check(p.outcome[0] == 'return' and norm(p.outcome[1]) in ('time.perf_counter()', 'time.monotonic()', 'time.time()'), 'C16.1', 'time_now:seconds', f_now.loc(), 'time_now() is a clock in seconds')
 
     # ---- C16.2 -----------------------------------------------------------------------------------------
+    check_zero_is_a_value(ctx, 'C16.2', 'a log whose first timestamp is 0.000, a message at relative time 0.0, a gap of 0.0',
+                          lambda f: f.module.name in ('core.wl.message', 'core.output.output', 'backends.libwayland_debug_output.parse', 'core.wl.object')
+                          or (f.module.name == 'frontends.tui.controller' and f.name != '_get_matching'), floor=20)
     ipaths = paths_of(repo, msg_init)
     probs = check_reach(ipaths, lambda e: e.kind == 'store' and e.target == 'Message.base_time',
                         lambda a: ('unset', True) if a.text == 'Message.base_time is None' else None, lambda F: F['unset'], universe=['unset'])
